@@ -126,14 +126,14 @@ def gen_leaf(g, sig, dtype):
 
 BINARY = ['add', 'sub', 'mul', 'div', 'logaddexp', 'maximum', 'lt', 'le', 'gt', 'ge', 'eq', 'where']
 BINARY_BOOL = ['logical_and', 'logical_or', 'eq']
-SCALAR = ['mul_s', 'div_s', 'sub_s', 'lt_s', 'le_s', 'gt_s', 'ge_s', 'eq_s', 'imul_s', 'itruediv_s', 'clamp_min', 'clamp_max']
+SCALAR = ['add_s', 'mul_s', 'div_s', 'sub_s', 'lt_s', 'le_s', 'gt_s', 'ge_s', 'eq_s', 'imul_s', 'itruediv_s', 'clamp_min', 'clamp_max']
 UNARY = ['abs', 'exp', 'expm1', 'log', 'to_bool', 'to_float', 'neg_', 'log_', 'log1p_', 'relu_', 'abs_', 'nan_to_num_']
 SELECT = ['any', 'log_softmax', 'norm']
 ACCESS = ['getitem', 'iter', 'tolist', 'item']
 SHAPE = ['transpose', 'permute', 'T', 'flatten', 'unsqueeze', 'expand', 'repeat', 'stack']
 RESHAPE = ['reshape_merge', 'reshape_ones', 'reshape_any', 'view_merge']
 COPIES = ['clone', 'detach', 'freshen', 'copy_', 'default_to', 'dim_to_dense', 'to_dense', 'project', 'imul_t', 'itruediv_t']
-ALLOPS = BINARY * 3 + BINARY_BOOL + SCALAR + UNARY + SELECT * 2 + ACCESS + SHAPE * 2 + RESHAPE * 2 + COPIES * 2 + ['leaf'] * 4
+ALLOPS = BINARY * 3 + BINARY_BOOL + SCALAR + UNARY + SELECT * 2 + ACCESS + SHAPE * 2 + RESHAPE * 2 + COPIES * 2 + ['leaf'] * 4 + ['special_leaf'] * 2
 
 
 def generate(prop, seed, tier):
@@ -425,8 +425,8 @@ class Machine:
             return 'where'
         if name == 'eq' and x.model.dtype == torch.bool:
             r = x.pt.eq(y.pt)
-        elif a[3] % 3 == 0 and name in ('mul', 'div'):
-            r = (x.pt * y.pt) if name == 'mul' else (x.pt / y.pt)
+        elif a[3] % 3 == 0 and name in ('mul', 'div', 'add', 'sub'):
+            r = {'mul': lambda: x.pt * y.pt, 'div': lambda: x.pt / y.pt, 'add': lambda: x.pt + y.pt, 'sub': lambda: x.pt - y.pt}[name]()
         else:
             r = getattr(x.pt, name)(y.pt)
         m = tf[name](x.model, y.model)
@@ -458,7 +458,7 @@ class Machine:
             if not same(x.pt.to_dense(), x.model):
                 V('denotation', [name], f'{name}({s}): {x.pt.to_dense().tolist()} vs {x.model.tolist()}')
             return name
-        tbl = {'mul_s': (lambda p: p.mul(s), lambda m: m.mul(s)), 'div_s': (lambda p: p.div(s), lambda m: m.div(s)),
+        tbl = {'add_s': (lambda p: p.add(s), lambda m: m.add(s)), 'mul_s': (lambda p: p.mul(s), lambda m: m.mul(s)), 'div_s': (lambda p: p.div(s), lambda m: m.div(s)),
                'sub_s': (lambda p: p.sub(s), lambda m: m.sub(s)),
                'lt_s': (lambda p: p.lt(s), lambda m: m.lt(s)), 'le_s': (lambda p: p.le(s), lambda m: m.le(s)),
                'gt_s': (lambda p: p.gt(s), lambda m: m.gt(s)), 'ge_s': (lambda p: p.ge(s), lambda m: m.ge(s)),
@@ -533,6 +533,32 @@ class Machine:
             self.nonDense = True
         self.result('leaf', pt, model, sig)
         return 'leaf'
+
+    def op_special_leaf(self, a):
+        """the library's own constructors: eye, full, from_int"""
+        S = sys.modules['fggs.semirings']
+        sem = [S.RealSemiring(dtype=torch.float64), S.LogSemiring(dtype=torch.float64), S.ViterbiSemiring(dtype=torch.float64)][a[0] % 3]
+        k = a[1] % 3
+        PT = self.IX.PatternedTensor
+        if k == 0:
+            n = 1 + a[2] % 3
+            pt = PT.eye(n, sem)
+            m = sem.eye(n)
+            sig = [['atom', n], ['atom', n]]
+        elif k == 1:
+            shape = [1 + a[2] % 3, 1 + a[3] % 3][:1 + a[4] % 2]
+            v = [0.0, 1.0, -2.5, float('inf')][a[5] % 4]
+            pt = PT.full(shape, v, dtype=torch.float64)
+            m = torch.full(shape, v, dtype=torch.float64)
+            sig = [['atom', n] for n in shape]
+        else:
+            i = a[2] % 3
+            pt = PT.from_int(i, sem)
+            m = sem.from_int(i)
+            sig = []
+        self.result('special_leaf', pt, m, sig)
+        self.nonDense = True
+        return 'special_leaf'
 
     def op_any(self, a):
         x = self.pick(a[0], lambda v: v.model.dtype == torch.bool and v.model.ndim >= 1)
